@@ -649,6 +649,7 @@ func genC09(c *Ctx) {
 		rooms[v] = newC09Room(v)
 	}
 	genC09Needed(c, vers)
+	genC09NeededOfCandidates(c, vers, rooms)
 	genC09AddAuthEvents(c, vers, rooms)
 	genC09Invariance(c, vers, rooms)
 	genC09Sequences(c, vers, rooms)
@@ -879,6 +880,16 @@ func c09MemberContent(c *Ctx, mv, tv, vv, sender string, variantKeys bool) strin
 	return "{" + strings.Join(parts, ",") + "}"
 }
 
+func genC09NeededOfCandidates(c *Ctx, vers []gmsl.RoomVersion, rooms map[gmsl.RoomVersion]*c09Room) {
+	for _, v := range vers {
+		r := rooms[v]
+		for _, cd := range r.cands {
+			c.Run("C09.state_needed", [][]byte{B(string(v)), r.w.pool[cd.ev].js}, "C09.state_needed", "C09.prop.readset_within_needed", "candidate "+cd.name)
+			c.Count("needed/candidates")
+		}
+	}
+}
+
 func genC09Needed(c *Ctx, vers []gmsl.RoomVersion) {
 	senders := []string{uAlice, uBob, "", "zed"}
 	sks := []*string{nil, c09sp(""), c09sp(uBob), c09sp(uAlice), c09sp("zzz"), c09sp("!aaa")}
@@ -892,7 +903,7 @@ func genC09Needed(c *Ctx, vers []gmsl.RoomVersion) {
 	emit := func(v gmsl.RoomVersion, typ, sender string, sk *string, content string, desc string) {
 		ww := wFor(v)
 		idx := ww.mk(typ, sender, sk, json.RawMessage(content), nil)
-		c.Run("C09.state_needed", [][]byte{B(string(v)), ww.pool[idx].js}, "C09.state_needed", "", desc)
+		c.Run("C09.state_needed", [][]byte{B(string(v)), ww.pool[idx].js}, "C09.state_needed", "C09.prop.readset_within_needed", desc)
 		flag, skv := c09Flag(sk)
 		c.Run("C09.needed_proto", Args(typ, sender, flag, skv, content), "C09.needed_proto", "", desc)
 	}
